@@ -17,6 +17,19 @@
     r matches Ok(v) ==> v == self.mem@[offset as int] as i8, // [C15]
 //@@end
 
+//@@fn file=allocator.rs src=expanded scope="%SCOPE%" name=get_u8_unchecked xlate=plain props=C15
+//@subst /let buf = unsafe \{\s*let ptr = self\.raw_ptr\(\)\.add\((.+?)\);\s*core::slice::from_raw_parts\(ptr, (.+?)\)\s*\}\s*;/ => let buf = self.mem_read(\1, \2);
+//@contract
+  requires self.inv(), offset as int + 1 <= self.allocated as int, // the caller's safety obligation
+  ensures r == self.mem@[offset as int], // [C15]
+//@@end
+//@@fn file=allocator.rs src=expanded scope="%SCOPE%" name=get_i8_unchecked xlate=plain props=C15
+//@subst /let buf = unsafe \{\s*let ptr = self\.raw_ptr\(\)\.add\((.+?)\);\s*core::slice::from_raw_parts\(ptr, (.+?)\)\s*\}\s*;/ => let buf = self.mem_read(\1, \2);
+//@contract
+  requires self.inv(), offset as int + 1 <= self.allocated as int, // the caller's safety obligation
+  ensures r == self.mem@[offset as int] as i8, // [C15]
+//@@end
+
 //@@fn file=allocator.rs src=expanded scope="%SCOPE%" name=allocated_memory xlate=plain props=C15,C19
 //@subst /unsafe \{\s*core::slice::from_raw_parts\(self\.raw_ptr\(\), (.+?)\)\s*\}/ => self.mem_slice(0, \1)
 //@contract
